@@ -11,8 +11,11 @@ AllForce == [f \in FileSet |-> TRUE]
 
 \* C10: every initial state of every output path x every effective force-file-write x at most one failing
 \* step of any one file; a missing listed interface on top (quick: only without another fault)
+\* a template-, schema-, exec- or format-stage failure whose cause is shared by two or all three files
+SharedFaults == {SharedFault(S, s) : S \in {T \in SUBSET FileSet : Cardinality(T) >= 2}, s \in StageSet}
 C10WorldsFull == {[fs0 |-> a, force |-> b, fault |-> c, missing |-> m] :
-                    a \in [FileSet -> InitStates], b \in [FileSet -> BOOLEAN], c \in AllStageFaults \cup {NoFault}, m \in BOOLEAN}
+                    a \in [FileSet -> InitStates], b \in [FileSet -> BOOLEAN],
+                    c \in AllStageFaults \cup SharedFaults \cup {NoFault}, m \in BOOLEAN}
 C10WorldsQuick == {x \in C10WorldsFull : x.missing => x.fault = NoFault}
 \* quick model check: "gen" and "user" content are the same thing to the model (the difference only exists for the
 \* real code, and the case export keeps both)
